@@ -195,6 +195,30 @@ InheritsIdx == { <<f, d, e, t>> : f \in {"null", "no"}, d \in {"null", "no"}, e 
 InheritsLoops == LET I == SetToSeq(InheritsIdx) IN
     [j \in DOMAIN I |-> Multi("inherits-loop", "any", <<"en", "fr", "de", "es">>, << DefA, AOf(I[j][1]), AOf(I[j][2]), AOf(I[j][3]) >>, InhTables[I[j][4]])]
 
+\* ---- formatters, adversarially: every formatter name (plus an unknown one and none) x argument texts that are unbalanced, empty,
+\* repeated, non-ASCII, too long - on a plain variable, on a plural count and inside a range branch
+FmtNames == << <<"n","u","m","b","e","r">>, <<"d","a","t","e">>, <<"t","i","m","e">>, <<"d","a","t","e","t","i","m","e">>, <<"l","i","s","t">>,
+              <<"c","u","r","r","e","n","c","y">>, <<"f","o","o">>, <<>> >>
+FmtArgs == << <<>>, <<"LP","RP">>, <<"LP">>, <<"RP">>, <<"LP","SEMI","RP">>, <<"LP","a","RP">>, <<"LP","a","COLON","RP">>, <<"LP","COLON","b","RP">>,
+             <<"LP","w","i","d","t","h","COLON","SP","n","a","r","r","o","w">>,
+             <<"LP","c","u","r","r","e","n","c","y","US","c","o","d","e","COLON","RP">>,
+             <<"LP","c","u","r","r","e","n","c","y","US","c","o","d","e","COLON","SP","A","B","C","D","RP">>,
+             <<"LP","c","u","r","r","e","n","c","y","US","c","o","d","e","COLON","SP","E1","RP">>,
+             <<"LP","c","u","r","r","e","n","c","y","US","c","o","d","e","COLON","SP","a","SP","b","RP">>,
+             <<"LP","c","u","r","r","e","n","c","y","US","c","o","d","e","COLON","SP","QUOT","RP">>,
+             <<"LP","d","a","t","e","US","l","e","n","g","t","h","COLON","RP">>,
+             <<"LP","d","a","t","e","US","l","e","n","g","t","h","COLON","SP","l","o","n","g","SEMI","SP","d","a","t","e","US","l","e","n","g","t","h","COLON","SP","s","h","o","r","t","RP">>,
+             <<"LP","l","i","s","t","US","t","y","p","e","COLON","SP","a","n","d","SEMI","RP">>,
+             <<"LP","LP","RP","RP">>, <<"LP","RB","RB","RP">>, <<"COMMA">>, <<"COMMA","n","u","m","b","e","r">>, <<"SP","SP">> >>
+FmtValue(nm, ar) == <<"LB", "LB", "SP", "v", "COMMA", "SP">> \o nm \o ar \o <<"SP", "RB", "RB">>
+FmtAdvIdx == { <<i, j>> : i \in DOMAIN FmtNames, j \in DOMAIN FmtArgs }
+FormatterAdversarial == LET I == SetToSeq(FmtAdvIdx) IN
+    Cat([q \in DOMAIN I |->
+        LET v == FmtValue(FmtNames[I[q][1]], FmtArgs[I[q][2]]) IN
+        << Single("fmt-adv", "any", << E("k", S(v)) >>),
+           Single("fmt-adv", "any", << E("k_one", S(v)), E("k_other", S(<<"LB","LB","c","o","u","n","t","COMMA">> \o FmtNames[I[q][1]] \o FmtArgs[I[q][2]] \o <<"RB","RB">>)) >>),
+           Single("fmt-adv", "any", << E("k", RangeSeq(<<>>, << Br(v, <<"0">>), Fb(<<"y">>) >>)) >>) >>])
+
 \* ---- odd locale and namespace names (they become Rust identifiers, module names, file names)
 OddLocales == << "en", "en-US", "en_US", "EN", "zh-Hant-TW", "type", "self", "1x", "e n", "", "fr-", "-fr", "x-private", "en-US-u-ca-buddhist",
                  "sr-Latn", "i-klingon", "en.US", "root", "und", "Self", "crate", "en--US" >>
